@@ -13,13 +13,20 @@
   run's view of the heap equals the run executed alone, *because* each of the objects a run
   works on is allocated per run (facts `runAllocs…`, `runBuildsOptMap`,
   `runCreatesStateViaRunCtx`) and run-time code writes nothing else that is shared (fact
-  `sharedWrites = []`).  What is NOT proved: atomicity of the steps, i.e. data-race freedom
+  `sharedWrites = []`).  For the CALL OPTIONS the slot abstraction is refined down to Go slice
+  semantics (section "call options" below, model EinoV/Model/C09Opt.lean on the slice heap of
+  the C10 model): the option map of a run is fresh, and – fact `extractOptionCopies` – so is the
+  storage of its values, hence for every interleaving of the option extractions and node
+  executions of any number of runs, every node reads exactly the option groups of its own
+  call, and the caller's `Option.options` arrays are never written.  What is NOT proved: atomicity of the steps, i.e. data-race freedom
   in the Go memory model – that clause is observed only (harness built with -race, child
   process, any race report is a violation).  The write-set is a syntactic
   over-approximation over a fixed package list, trusted as such.
 -/
 import EinoV.Model.C09
+import EinoV.Model.C09Opt
 import EinoV.Proofs.C09
+import EinoV.Proofs.C09Opt
 import EinoV.Gen.FactsC09
 import EinoV.Expected.C09
 
@@ -31,7 +38,7 @@ def repoAlloc : Alloc :=
   allocOf FactsC09.runAllocsChannelManager FactsC09.channelsBuiltPerRun
     FactsC09.channelManagerFieldsFresh FactsC09.runAllocsTaskManager FactsC09.taskManagerQueueFresh
     FactsC09.runBuildsOptMap FactsC09.runCreatesStateViaRunCtx
-    FactsC09.sharedWrites FactsC09.nonFreshPerRunFields
+    FactsC09.sharedWrites FactsC09.nonFreshPerRunFields FactsC09.extractOptionCopies
 
 /-! ## the tie to the source -/
 
@@ -54,7 +61,8 @@ theorem per_run_allocation :
     FactsC09.channelManagerFieldsFresh = true ∧
     FactsC09.runAllocsTaskManager = true ∧ FactsC09.taskManagerQueueFresh = true ∧
     FactsC09.nonFreshPerRunFields = [] ∧
-    FactsC09.runBuildsOptMap = true ∧ FactsC09.runCreatesStateViaRunCtx = true := by decide
+    FactsC09.runBuildsOptMap = true ∧ FactsC09.runCreatesStateViaRunCtx = true ∧
+    FactsC09.extractOptionCopies = true := by decide
 
 theorem facts_match : repoAlloc = Expected.C09.alloc := by decide
 
@@ -109,6 +117,209 @@ theorem result_as_alone_partial (prog : List Layer) (calls : List (String × Str
     | zero => intro s; rfl
     | succ n ih => intro s; simp only [alone]; exact ih _
   rw [hidx]
+
+/-! ## call options (Go slice semantics)
+
+`runBuildsOptMap` says the option MAP of a run is a fresh object.  Its values are slices: the
+theorems below are about what they are windows into. -/
+
+section CallOptions
+
+/-- **extract_option_copies.** Every store into the option map of `extractOption` is
+    `optMap[k] = append(optMap[k], …)`: the first group of a node is copied into storage of the
+    run (append to the nil slice of a fresh map), later groups are appended to that storage. -/
+theorem extract_option_copies : FactsC09.extractOptionCopies = true := by decide
+
+/-- **tools_node_read_only.** No method on the run path of a ToolsNode assigns through the
+    receiver: the conversion of a `WithToolList` call option lives in locals of the call. -/
+theorem tools_node_read_only : FactsC09.toolsNodeRunPathWrites = [] := by decide
+
+theorem facts_match_options :
+    FactsC09.extractOptionCopies = Expected.C09.extractOptionCopies ∧
+    FactsC09.toolsNodeRunPathWrites = Expected.C09.toolsNodeRunPathWrites := by decide
+
+/-- **A node sees exactly the options of its own call** – for the code as it is
+    (`extractOptionCopies` from /repo), any number of concurrent calls with any option groups
+    (shared `Option` values included: several calls may hold windows into the same caller
+    array, with any spare capacity), any set of (call, node) extraction threads and EVERY
+    interleaving of their steps: whatever node `p` of call `i` reads when it is executed is
+    `visible h0 gs p` – the concatenation, in call order, of the groups of call `i` that reach
+    `p`, as the caller handed them over.  It is a function of the call's own options only. -/
+theorem node_sees_exactly_own_options (h0 : C10.Heap) (calls : List (List Opt.Group))
+    (threads : List (Nat × Opt.Path)) (sched : List Nat) (wf : Opt.CallsWF h0 calls)
+    (t i : Nat) (p : Opt.Path) (gs : List Opt.Group) (r : List C10.Hd)
+    (ht : threads[t]? = some (i, p)) (hc : calls[i]? = some gs)
+    (hs : ((Opt.exec FactsC09.extractOptionCopies (Opt.progOf calls threads) sched
+              (Opt.St.init h0)).th t).seen = some r) :
+    r = Opt.visible h0 gs p := by
+  rw [extract_option_copies] at hs
+  have inv := Opt.inv_exec (Opt.wf_progOf wf threads) sched _ (Opt.inv_init h0 _)
+  have hp : (Opt.progOf calls threads)[t]? = some (Opt.reaching gs p) := by
+    simp [Opt.progOf, ht, List.getD_eq_getElem?_getD, hc]
+  exact inv.sn t _ r hp hs
+
+/-- **The caller's option arrays are never written** by any run (spare capacity included). -/
+theorem caller_option_arrays_untouched (h0 : C10.Heap) (calls : List (List Opt.Group))
+    (threads : List (Nat × Opt.Path)) (sched : List Nat) (wf : Opt.CallsWF h0 calls)
+    (a : Nat) (ha : a < h0.length) :
+    (Opt.exec FactsC09.extractOptionCopies (Opt.progOf calls threads) sched (Opt.St.init h0)).heap[a]?
+      = h0[a]? := by
+  rw [extract_option_copies]
+  exact (Opt.inv_exec (Opt.wf_progOf wf threads) sched _ (Opt.inv_init h0 _)).pre a ha
+
+/-- **Runs do not share options**: the same call (same groups) observed in two different
+    worlds – other concurrent calls, other threads, another schedule – reads the same options. -/
+theorem options_independent_of_other_runs (h0 : C10.Heap)
+    (calls calls' : List (List Opt.Group)) (threads threads' : List (Nat × Opt.Path))
+    (sched sched' : List Nat) (wf : Opt.CallsWF h0 calls) (wf' : Opt.CallsWF h0 calls')
+    (t t' i i' : Nat) (p : Opt.Path) (gs : List Opt.Group) (r r' : List C10.Hd)
+    (ht : threads[t]? = some (i, p)) (ht' : threads'[t']? = some (i', p))
+    (hc : calls[i]? = some gs) (hc' : calls'[i']? = some gs)
+    (hs : ((Opt.exec FactsC09.extractOptionCopies (Opt.progOf calls threads) sched
+              (Opt.St.init h0)).th t).seen = some r)
+    (hs' : ((Opt.exec FactsC09.extractOptionCopies (Opt.progOf calls' threads') sched'
+              (Opt.St.init h0)).th t').seen = some r') :
+    r = r' := by
+  rw [node_sees_exactly_own_options h0 calls threads sched wf t i p gs r ht hc hs,
+    node_sees_exactly_own_options h0 calls' threads' sched' wf' t' i' p gs r' ht' hc' hs']
+
+/-- non-vacuity of the two theorems above: a thread that is scheduled once per group and once
+    more has read (whatever `copies` is) -/
+theorem node_reads_when_scheduled (copies : Bool) (prog : List (List C10.Slice)) (t : Nat)
+    (gs : List C10.Slice) (hp : prog[t]? = some gs) (sched : List Nat) :
+    ∀ st : Opt.St, (st.th t).pc ≤ gs.length → gs.length + 1 ≤ (st.th t).pc + sched.count t →
+      ((Opt.exec copies prog sched st).th t).seen.isSome = true := by
+  have mono_step : ∀ (st : Opt.St) (j : Nat), (st.th t).seen.isSome = true →
+      ((Opt.step copies prog st j).th t).seen.isSome = true := by
+    intro st j h
+    unfold Opt.step
+    split
+    · exact h
+    · dsimp only
+      split
+      · by_cases e : t = j
+        · subst e; simpa [Opt.upd] using h
+        · simpa [Opt.upd, e] using h
+      · split
+        · exact h
+        · by_cases e : t = j
+          · subst e; simp [Opt.upd]
+          · simpa [Opt.upd, e] using h
+  have mono : ∀ (s : List Nat) (st : Opt.St), (st.th t).seen.isSome = true →
+      ((Opt.exec copies prog s st).th t).seen.isSome = true := by
+    intro s
+    induction s with
+    | nil => intro st h; exact h
+    | cons j rest ih => intro st h; exact ih _ (mono_step st j h)
+  induction sched with
+  | nil => intro st h1 h2; simp at h2; omega
+  | cons j rest ih =>
+    intro st h1 h2
+    simp only [Opt.exec]
+    by_cases e : j = t
+    · subst e
+      have hcnt : (j :: rest).count j = rest.count j + 1 := by simp
+      rw [hcnt] at h2
+      by_cases hlt : (st.th j).pc < gs.length
+      · -- one more group collected
+        have hg : gs[(st.th j).pc]? = some gs[(st.th j).pc] := by simp [hlt]
+        apply ih
+        · simp [Opt.step, hp, hg, Opt.upd]; omega
+        · simp [Opt.step, hp, hg, Opt.upd]; omega
+      · have hg : gs[(st.th j).pc]? = none := by simp; omega
+        apply mono
+        by_cases hsn : (st.th j).seen.isSome = true
+        · simp [Opt.step, hp, hg, hsn]
+        · simp [Opt.step, hp, hg, hsn, Opt.upd]
+    · have hcnt : (j :: rest).count t = rest.count t := by
+        simp [e]
+      rw [hcnt] at h2
+      have hsame : (Opt.step copies prog st j).th t = st.th t := by
+        unfold Opt.step
+        split
+        · rfl
+        · dsimp only
+          split
+          · simp [Opt.upd, Ne.symm e]
+          · split
+            · rfl
+            · simp [Opt.upd, Ne.symm e]
+      apply ih
+      · rw [hsame]; exact h1
+      · rw [hsame]; exact h2
+
+/-- a shared Option value `WithLambdaOption(common...)` whose slice has spare capacity
+    (3 options in an array of 5), and two calls that each add one option of their own -/
+def hazardHeap : C10.Heap :=
+  [[⟨1, none⟩, ⟨2, none⟩, ⟨3, none⟩, default, default], [⟨10, none⟩], [⟨20, none⟩]]
+def hazardProg : List (List C10.Slice) :=
+  [[⟨0, 0, 3, 5⟩, ⟨1, 0, 1, 1⟩], [⟨0, 0, 3, 5⟩, ⟨2, 0, 1, 1⟩]]
+
+/-- the code as it is, on this input, under the overlapping schedule: every node reads
+    common ++ its own option -/
+example :
+    Opt.seenAll FactsC09.extractOptionCopies hazardHeap hazardProg [0, 0, 1, 1, 0, 1]
+      = [some [⟨1, none⟩, ⟨2, none⟩, ⟨3, none⟩, ⟨10, none⟩],
+         some [⟨1, none⟩, ⟨2, none⟩, ⟨3, none⟩, ⟨20, none⟩]] := by decide
+
+/-- **C10.Slice-aliasing hazard (negation witness).**  If the first group of a node were taken as
+    it is (`copies = false`: `optMap[k]` IS the caller's `Option.options` slice), `append` of the
+    second group writes into the spare capacity of the caller's array, which both calls see:
+    under the schedule  extract₀ extract₀ extract₁ extract₁ read₀ read₁  call 0 executes its node
+    with call 1's option (20 instead of 10) and the caller's array has been written; run alone
+    (or with the copying extraction) call 0 reads its own option. -/
+theorem aliased_first_group_interferes :
+    Opt.seenAll false hazardHeap hazardProg [0, 0, 1, 1, 0, 1]
+      = [some [⟨1, none⟩, ⟨2, none⟩, ⟨3, none⟩, ⟨20, none⟩],
+         some [⟨1, none⟩, ⟨2, none⟩, ⟨3, none⟩, ⟨20, none⟩]]
+    ∧ Opt.seenAll false hazardHeap hazardProg [0, 0, 0]
+      = [some [⟨1, none⟩, ⟨2, none⟩, ⟨3, none⟩, ⟨10, none⟩], none]
+    ∧ Opt.seenAll true hazardHeap hazardProg [0, 0, 1, 1, 0, 1]
+      = [some [⟨1, none⟩, ⟨2, none⟩, ⟨3, none⟩, ⟨10, none⟩],
+         some [⟨1, none⟩, ⟨2, none⟩, ⟨3, none⟩, ⟨20, none⟩]]
+    ∧ (Opt.exec false hazardProg [0, 0, 1, 1, 0, 1] (Opt.St.init hazardHeap)).heap[0]? ≠ hazardHeap[0]? := by
+  decide
+
+/-- without spare capacity (`len = cap`) the aliased slice is harmless: `append` reallocates -/
+example :
+    Opt.seenAll false [[⟨1, none⟩, ⟨2, none⟩, ⟨3, none⟩], [⟨10, none⟩], [⟨20, none⟩]]
+      [[⟨0, 0, 3, 3⟩, ⟨1, 0, 1, 1⟩], [⟨0, 0, 3, 3⟩, ⟨2, 0, 1, 1⟩]] [0, 0, 1, 1, 0, 1]
+      = [some [⟨1, none⟩, ⟨2, none⟩, ⟨3, none⟩, ⟨10, none⟩],
+         some [⟨1, none⟩, ⟨2, none⟩, ⟨3, none⟩, ⟨20, none⟩]] := by decide
+
+/-! ### per-run tool lists -/
+
+/-- **Each run's tool calls are executed by the tools of ITS list** – for the code as it is
+    (`toolsNodeRunPathWrites = []`), any number of runs carrying any lists, every interleaving:
+    the shared node is never written, a run that has not reached the node holds nothing, a run
+    that has holds the conversion of its own `WithToolList` option. -/
+theorem tool_list_is_own (lists : Nat → Nat) (sched : List Nat) (i : Nat) :
+    let st := Tools.exec (!FactsC09.toolsNodeRunPathWrites.isEmpty) lists sched Tools.St.init
+    st.node = ⟨none, none⟩
+    ∧ ((st.rs i).tuple = none ∨ (st.rs i).tuple = some (lists i))
+    ∧ (i ∈ sched → (st.rs i).tuple = some (lists i)) := by
+  have hm : (!FactsC09.toolsNodeRunPathWrites.isEmpty) = false := by decide
+  rw [hm]
+  have g := Tools.good_exec (lists := lists) sched _ (Tools.good_init lists)
+  refine ⟨g.1, ?_, ?_⟩
+  · rcases g.2 i with h | h <;> simp [h]
+  · intro hi
+    rw [Tools.mem_exec sched i hi _ (Tools.good_init lists)]
+
+/-- **Memoised conversion on the shared node ⇒ interference (negation witness).**  The last
+    list and its conversion kept in two fields of the ToolsNode, written one after the other
+    (the conversion – the user's `Info` calls – in between).  Runs 0 (list 7), 1 and 2 (list 9):
+    run 0 starts converting, run 1 runs to completion, run 0 completes (the memo is now
+    list 9 ↦ conversion of 7), run 2 finds "its" list memoised and executes list 7's tools. -/
+theorem memoised_tool_list_interferes :
+    let lists : Nat → Nat := fun i => if i = 0 then 7 else 9
+    ((Tools.exec true lists [0, 1, 1, 1, 0, 0, 2] Tools.St.init).rs 2).tuple = some 7
+    ∧ ((Tools.exec true lists [2] Tools.St.init).rs 2).tuple = none
+    ∧ ((Tools.exec true lists [2, 2, 2] Tools.St.init).rs 2).tuple = some 9
+    ∧ ((Tools.exec false lists [0, 1, 1, 1, 0, 0, 2] Tools.St.init).rs 2).tuple = some 9 := by
+  decide
+
+end CallOptions
 
 /-! ## non-vacuity -/
 
